@@ -2,7 +2,7 @@
 import os
 import collections, fractions, json, math, random, warnings
 import numpy as np, pandas as pd
-from . import core, fitgen, c04, carvecase
+from . import core, fitgen, c04, carvecase, pipe
 
 F = fractions.Fraction
 MIN_FREQS = [0.02, 0.05, 0.1, 0.12, 0.15, 0.2, 0.25, 0.3, 0.4, 0.5]
@@ -215,14 +215,14 @@ def worker(args):
     core.import_repo()
     if n == -1:
         stats = {"cases": 0, "fl_quantiles": 0, "fl_ordinal": 0, "ordinal_judged": 0, "quant_judged": 0, "cat_judged": 0, "cont_judged": 0,
-                 "fit_errors": {}, "classes": {}}
+                 "fit_errors": {}, "classes": {}, "pipeline_model": {}}
         fs = run_corpus(stats)
         return fs, len(fs), stats, None, len(corpus_cases())
     rng = random.Random(seed)
     drv = core.Driver()
     fails, sample, sigs = [], None, set()
     stats = {"cases": 0, "fl_quantiles": 0, "fl_ordinal": 0, "ordinal_judged": 0, "quant_judged": 0, "cat_judged": 0, "cont_judged": 0,
-             "fit_errors": {}, "classes": {}}
+             "fit_errors": {}, "classes": {}, "pipeline_model": {}}
     try:
         fails += kernel_selftest(drv, rng)
         fails += fl_quantiles(drv, rng, 6 * n, stats)
@@ -243,6 +243,7 @@ def worker(args):
             stats["cases"] += 1
             stats["classes"][cls] = stats["classes"].get(cls, 0) + 1
             fs = judge_object(cls, obj, ds, mf, stats)
+            fs += pipe.compare(drv, cls, obj, ds, mf, {}, stats["pipeline_model"])
             for f in fs:
                 f["case"] = {"X": fitgen.frame_wire(ds["X"]), "y": [fitgen.cell(v) for v in ds["y"].tolist()],
                              "values_orders": ds["values_orders"], "class": cls, "min_freq": mf}
